@@ -288,7 +288,8 @@ ARENA.update({
     'C17': dict(
         x=['panic', 'block-misaligned', 'live-blocks-overlap', 'entry-points-differ'],
         mism=['result-block', 'result-kind', 'prepared-range', 'stats', 'block-contents'],
-        note='PARTIAL: hint independence and dyn=typed commit proved; try_/panicking twins and Bump/BumpScope/reference forwarding are tied by running all entry points against one model function'),
+        colls_search_x=['capacity:', 'contents differ', 'returned values differ', 'std::vec::Vec', 'accounted', 'lost'],
+        note='hint independence and dyn=typed commit proved; try_/panicking twins and the forwarding layers (forward_methods!, impls for references, trait objects, WithoutDealloc, WithoutShrink) decided statically on tables regenerated from the source on every run (tools/c17.py -> gen/Twins.v, rules and meaning in TwinSpec.v: 230 twin pairs, 173 forwarding functions); PARTIAL: the normalisation of the twin bodies is part of the trusted translator; the entry points are additionally run against one model function'),
     'C18': dict(
         x=['position-not-multiple-of-min-align', 'scoped-aligned-exit-not-exactly-entry-position', 'block-contents-changed',
            'block-misaligned', 'live-blocks-overlap', 'panic'],
@@ -469,6 +470,19 @@ def check_arena(ctx):
                         res3 = run_arena(ctx, 1500, 80, [ctx.seed, ctx.seed + 7], binname='arena_x')
                         if res3 is not None:
                             arena_verdict(ctx, pid, res3, conf)
+                    if not ctx.violations and conf.get('colls_search_x'):
+                        # the collections reach the arena through the forwarding layers (&Bump, &mut Bump): their
+                        # histories are a further place to look for a concrete input
+                        rcs = run_colls(ctx, 20000, [ctx.seed, ctx.seed + 7])
+                        if rcs is not None:
+                            for (b, case, xl) in rcs['implx']:
+                                if any(k in xl for k in conf['colls_search_x']):
+                                    ctx.violations.append({'kind': 'colls-case' if case else 'colls-probe', 'build': b, 'case': case, 'what_fails': xl,
+                                                           'signature': 'colls:' + re.sub(r'[0-9]+', 'N', xl)[:80]})
+                            for (b, rc, case, err) in rcs.get('crashes', []):
+                                ctx.violations.append({'kind': 'colls-case', 'build': b, 'case': case,
+                                                       'what_fails': 'the process died (exit status %d: %s) while the crate executed this capacity history through its safe API' % (rc, err.strip()[-120:]),
+                                                       'signature': 'colls:crash-in-capacity-history'})
                     for k in ('runs', 'steps', 'nontrivial_steps'):
                         res['summary'][k] += res2['summary'][k]
                     if (rel or rel2) and not ctx.violations and not any(p[0] == 'tie' for p in ctx.problems):
